@@ -284,7 +284,7 @@ func cmdCheck(args []string) int {
 	var openDis []Disagreement
 	explained := 0
 	for _, d := range dis {
-		if d.Level != "callbacks" && hasMultiDictQual(d.Case) && (knownShape("dict-registers-imports-in-map-order") || d7Recorded(kn)) {
+		if d.Level != "callbacks" && dictRegistersInMapOrder(d.Case) && (knownShape("dict-registers-imports-in-map-order") || d7Recorded(kn)) {
 			explained++
 			continue
 		}
